@@ -730,3 +730,212 @@ class MergeUpdates(Job):
 
 JOBS.setdefault("C14", [])
 JOBS["C14"] += [MergeUpdates()]
+
+
+# =====================================================================================================
+# C03: the non-fungible container (id sets): take_by_ids / put / take_all conserve the ids
+# =====================================================================================================
+NFC = 4        # slot capacity of the container's id set
+
+
+def _nfid(t):
+    return StructV("NonFungibleLocalId", [IntV(t, "u64")])
+
+
+class NfContainer(Job):
+    crate = "radix-engine-interface"
+    replay_crate = "radix-engine"
+    query_timeout_s = 60
+    case_keys = ("k",)
+    env_overrides = [(re.compile(r"^<NonFungibleLocalId as Clone>::clone$"), _models.m_clone)]
+
+    def __init__(self, op):
+        self.op = op
+        self.name = "c03m::liquid_non_fungible_" + op
+        self.what = {
+            "take_by_ids": "LiquidNonFungibleResource::take_by_ids from an arbitrary container (<= %d ids, symbolic) with a "
+                           "request of k = 0..3 distinct symbolic ids: Ok exactly when every requested id is held; then "
+                           "the container loses exactly the requested ids and the result holds exactly them (ids are "
+                           "neither created nor destroyed); otherwise MissingNonFungibleLocalId" % NFC,
+            "put": "LiquidNonFungibleResource::put of k = 0..2 ids into an arbitrary container: the container afterwards "
+                   "holds exactly the union",
+            "take_all": "LiquidNonFungibleResource::take_all: the result holds exactly the former content and the "
+                        "container is empty",
+        }[op]
+        self.cover_labels = {"take_by_ids": ["ok", "missing", "take everything"], "put": ["new id", "duplicate id"],
+                             "take_all": ["non-empty"]}[op]
+
+    def cases(self, tier):
+        return [{"k": k} for k in {"take_by_ids": (0, 1, 2, 3), "put": (0, 1, 2), "take_all": (0,)}[self.op]]
+
+    def locate(self, prog):
+        return find_function(prog, "blueprints/resource/resource.rs", self.op,
+                             param_types={"take_by_ids": ["&mut LiquidNonFungibleResource", "&IndexSet<NonFungibleLocalId>"],
+                                          "put": ["&mut LiquidNonFungibleResource", "LiquidNonFungibleResource"],
+                                          "take_all": ["&mut LiquidNonFungibleResource"]}[self.op])
+
+    def inputs(self):
+        k = self.case["k"]
+        d, pre = {}, []
+        for i in range(NFC):
+            d["c%d_p" % i], d["c%d_id" % i] = z3.Int("c%d_p" % i), z3.Int("c%d_id" % i)
+            pre += [d["c%d_p" % i] >= 0, d["c%d_p" % i] <= 1, d["c%d_id" % i] >= 0, d["c%d_id" % i] <= 1000]
+            for j in range(i):
+                pre.append(z3.Implies(z3.And(d["c%d_p" % i] == 1, d["c%d_p" % j] == 1), d["c%d_id" % i] != d["c%d_id" % j]))
+        for e in range(k):
+            d["a%d" % e] = z3.Int("a%d" % e)
+            pre += [d["a%d" % e] >= 0, d["a%d" % e] <= 1000]
+            for j in range(e):
+                pre.append(d["a%d" % e] != d["a%d" % j])
+        if self.op == "put":
+            pre.append(z3.Sum([d["c%d_p" % i] for i in range(NFC)]) <= NFC - k)
+        return d, pre
+
+    def _container(self, d):
+        slots = [StructV("Slot", [_nfid(lit(d["c%d_id" % i])), UnitV(), BoolV(lit(d["c%d_p" % i]) == 1)]) for i in range(NFC)]
+        return StructV("LiquidNonFungibleResource", [StructV("SymMap<NonFungibleLocalId, ()>", slots)])
+
+    def setup_path(self, path, inp):
+        self._d = {k: lit(v) for k, v in inp.items()}
+        path.frames["job"] = {"self": self._container(self._d)}
+
+    def args(self, inp):
+        k = self.case["k"]
+        me = RefV("&mut LiquidNonFungibleResource", "job", "self", ())
+        ids = StructV("IndexSet<NonFungibleLocalId>", [_nfid(lit(inp["a%d" % e])) for e in range(k)])
+        if self.op == "take_by_ids":
+            return [me, const_ref("&IndexSet<NonFungibleLocalId>", ids)]
+        if self.op == "put":
+            return [me, StructV("LiquidNonFungibleResource", [ids])]
+        return [me]
+
+    @staticmethod
+    def _held(setv, t):
+        """membership of id term t in a slot-array set or an entry-list set"""
+        if setv.ty.startswith("SymMap"):
+            return z3.Or([z3.And(s.fields[2].term, s.fields[0].fields[0].term == t) for s in setv.fields]) \
+                if setv.fields else z3.BoolVal(False)
+        return z3.Or([e.fields[0].term == t for e in setv.fields]) if setv.fields else z3.BoolVal(False)
+
+    def extract_outcome(self, o):
+        # membership of a probe id q in the final container and in the returned container
+        q = z3.Int("q")
+        final = o.path.frames["job"]["self"].fields[0]
+        d = {"in_final": self._held(final, q)}
+        v = o.value
+        if self.op == "take_by_ids":
+            d["ok"] = v.discr == 0
+            rs = v.variants[0][0].fields[0] if v.variants.get(0) and v.variants[0][0].kind == "struct" else None
+            d["in_result"] = self._held(rs, q) if rs is not None else z3.BoolVal(False)
+        elif self.op == "take_all":
+            d["ok"] = z3.BoolVal(True)
+            d["in_result"] = self._held(v.fields[0], q)
+        else:
+            d["ok"] = v.discr == 0 if v.kind == "enum" else z3.BoolVal(True)
+            d["in_result"] = z3.BoolVal(False)
+        return d
+
+    def _pre_sets(self, d):
+        q = z3.Int("q")
+        held = z3.Or([z3.And(d["c%d_p" % i] == 1, d["c%d_id" % i] == q) for i in range(NFC)])
+        k = self.case["k"]
+        asked = z3.Or([d["a%d" % e] == q for e in range(k)]) if k else z3.BoolVal(False)
+        return q, held, asked
+
+    def post(self, inp, res):
+        d = {k: lit(v) for k, v in inp.items()}
+        q, held, asked = self._pre_sets(d)
+        if "in_final" not in res:
+            # native scenario result: evaluated by native_failed
+            return []
+        ok, inf, inr = lit(res["ok"]), lit(res["in_final"]), lit(res["in_result"])
+        k = self.case["k"]
+        if self.op == "take_by_ids":
+            all_held = z3.And([z3.Or([z3.And(d["c%d_p" % i] == 1, d["c%d_id" % i] == d["a%d" % e]) for i in range(NFC)])
+                               for e in range(k)]) if k else z3.BoolVal(True)
+            return [("succeeds exactly when every requested id is held", ok == all_held),
+                    ("on success the container keeps exactly the ids that were not requested (for every id q)",
+                     z3.Implies(ok, inf == z3.And(held, z3.Not(asked)))),
+                    ("on success the result holds exactly the requested ids (for every id q)", z3.Implies(ok, inr == asked))]
+        if self.op == "put":
+            return [("put succeeds", ok), ("the container holds exactly the union (for every id q)", inf == z3.Or(held, asked))]
+        return [("the result holds exactly the former content (for every id q)", inr == held),
+                ("the container is empty afterwards", z3.Not(inf))]
+
+    def covers(self, inp, res):
+        d = {k: lit(v) for k, v in inp.items()}
+        if "in_final" not in res:
+            return []
+        n = z3.Sum([d["c%d_p" % i] for i in range(NFC)])
+        k = self.case["k"]
+        if self.op == "take_by_ids":
+            return [("ok", z3.And(lit(res["ok"]), k > 0)), ("missing", z3.Not(lit(res["ok"]))),
+                    ("take everything", z3.And(lit(res["ok"]), n == k, k > 0))]
+        if self.op == "put":
+            q, held, asked = self._pre_sets(d)
+            return [("new id", z3.And(asked, z3.Not(held))), ("duplicate id", z3.And(asked, held))]
+        return [("non-empty", n > 0)]
+
+    # native: the whole comparison is done on concrete sets
+    def _native_sets(self, nat, vals):
+        k = self.case["k"]
+        held = [int(vals["c%d_id" % i]) for i in range(NFC) if int(vals["c%d_p" % i]) == 1]
+        asked = [int(vals["a%d" % e]) for e in range(k)]
+        op = {"take_by_ids": "take", "put": "put", "take_all": "takeall"}[self.op]
+        t = nat.call("nf_run", op, len(held), *(held + [len(asked)] + asked))
+        return held, asked, t
+
+    def native(self, nat, vals):
+        held, asked, t = self._native_sets(nat, vals)
+        if t.startswith("panic"):
+            return {"panic": True, "msg": t[6:]}
+        return {"panic": False, "ok": t.split()[1] == "ok"}
+
+    def native_failed(self, nat, vals, label):
+        held, asked, t = self._native_sets(nat, vals)
+        if t.startswith("panic"):
+            return {"panic": True}, ["native panic: " + t]
+        toks = t.split()
+        failed = []
+
+        def parse(s):
+            s = s.strip("[]")
+            return sorted(int(x) for x in s.split(",") if x)
+        if self.op == "take_by_ids":
+            want_ok = all(a in held for a in asked)
+            if (toks[1] == "ok") != want_ok:
+                failed.append("take_by_ids(%s) from %s -> %s" % (asked, held, " ".join(toks[1:])))
+            elif toks[1] == "ok":
+                rem, got = parse(toks[2]), parse(toks[3])
+                if rem != sorted(set(held) - set(asked)) or got != sorted(asked):
+                    failed.append("take_by_ids(%s) from %s left %s and returned %s" % (asked, held, rem, got))
+        elif self.op == "put":
+            rem = parse(toks[2])
+            if rem != sorted(set(held) | set(asked)):
+                failed.append("put(%s) into %s gives %s" % (asked, held, rem))
+        else:
+            rem, got = parse(toks[2]), parse(toks[3])
+            if rem or got != sorted(held):
+                failed.append("take_all from %s left %s and returned %s" % (held, rem, got))
+        return {"native": " ".join(toks[1:])}, failed
+
+    def vectors(self, rng):
+        out = []
+        for _ in range(30):
+            k = rng.choice([c["k"] for c in self.cases("quick")])
+            ids = rng.sample(range(1, 12), NFC)
+            d = {"k": k}
+            n_present = rng.randrange(0, NFC + 1 - (k if self.op == "put" else 0))
+            for i in range(NFC):
+                d["c%d_p" % i] = 1 if i < n_present else 0
+                d["c%d_id" % i] = ids[i]
+            pool = ids[:n_present] + [20, 21, 22]
+            asked = rng.sample(pool, k) if rng.random() < 0.6 else rng.sample(ids[:n_present], min(k, n_present)) + [20, 21, 22][:max(0, k - n_present)]
+            for e in range(k):
+                d["a%d" % e] = asked[e]
+            out.append(d)
+        return out
+
+
+JOBS.setdefault("C03", [])
+JOBS["C03"] += [NfContainer("take_by_ids"), NfContainer("put"), NfContainer("take_all")]
